@@ -114,6 +114,8 @@ def _accept_sig(text, code, pos):
         p = pos + 2
         while p < len(text) and p < pos + 6 and text[p] in R.HEX:
             p += 1
+    if code.startswith("NUM_LOOKAHEAD"):
+        return "C01/accepts-invalid/number-followed-by-digit-or-letter"
     cls = _char_class(text, p)
     if "+isdigit" in cls or "+isalnum" in cls:
         where = "escape" if code == "BAD_UESC" else _context(text, p)
